@@ -25,6 +25,8 @@ static inline uint64_t nd_u64(void) { vh_tape = nondet_vh_u64(); return vh_tape;
 #define REACHED() __CPROVER_assert(0, "WITNESS")
 #endif
 #define VH_NATIVE 0
+/* p is the start of a heap/stack object of exactly n bytes */
+#define VH_EXACT_OBJECT(p, n) (__CPROVER_OBJECT_SIZE(p) == (size_t)(n) && __CPROVER_POINTER_OFFSET(p) == 0)
 #else /* native replay */
 #include <stdio.h>
 #include <stdlib.h>
@@ -48,6 +50,7 @@ nd_u64(void)
 #define __CPROVER_assume(c) ASSUME(c)
 #define __CPROVER_assert(c, msg) CHECK(c, msg)
 #define VH_NATIVE 1
+#define VH_EXACT_OBJECT(p, n) 1	/* natively ASan polices object bounds */
 #endif
 
 static inline uint8_t nd_u8(void) { return ((uint8_t)nd_u64()); }
